@@ -120,6 +120,50 @@ func readLock(file string) map[string]string {
 
 func lockKey(tags, name string) string { return tags + "\t" + name }
 
+// A postcondition is claimed for every exit of a function. Exits are numbered, and a change to
+// the function may renumber them or add one: an obligation "<f>#post[l]@exitK[..]" that is not in
+// the lock by name belongs to the family "<f>#post[l]"; when every member of that family is
+// recorded as discharged, the new member is claimed as well (class t if any member is slow).
+func familyOf(name string) string {
+	if i := strings.Index(name, "@exit"); i >= 0 {
+		return name[:i]
+	}
+	return ""
+}
+
+func lockFamilies(lock map[string]string) map[string]string {
+	fam := map[string]string{}
+	for k, cls := range lock {
+		f := familyOf(k)
+		if f == "" {
+			continue
+		}
+		prev, seen := fam[f]
+		switch {
+		case cls == "u" || cls == "c" || prev == "u":
+			fam[f] = "u"
+		case cls == "t" || prev == "t":
+			fam[f] = "t"
+		case !seen:
+			fam[f] = cls
+		}
+	}
+	return fam
+}
+
+// lockClass: class of an obligation by name, or else by family.
+func lockClass(lock, fam map[string]string, tags, name string) string {
+	if c, ok := lock[lockKey(tags, name)]; ok {
+		return c
+	}
+	if f := familyOf(name); f != "" {
+		if c := fam[lockKey(tags, f)]; c == "q" || c == "t" {
+			return c
+		}
+	}
+	return ""
+}
+
 // lockHasFunc reports whether the lock knows any obligation of the function (for these tags).
 func lockHasFunc(lock map[string]string, tags, fn string) bool {
 	pre := tags + "\t" + fn + "#"
@@ -146,8 +190,9 @@ type Evidence struct {
 
 func (r *Report) Finish() int {
 	lock := readLock(r.LockFile)
+	fams := lockFamilies(lock)
 	known := r.Known
-	nd, nr, nu, ncov := 0, 0, 0, 0
+	nd, nr, nu, ncov, ncond := 0, 0, 0, 0, 0
 	byBackend := map[string]int{}
 	solverTime := 0.0
 	var undecided, refuted []*Verdict
@@ -155,9 +200,64 @@ func (r *Report) Finish() int {
 	vacuity := map[string]int{}
 	funcs := map[string]bool{}
 	vacuousFunc := map[string]bool{}
+	// a return statement that is executed once per incoming edge (tail duplication) is reachable
+	// when one of its copies is; every other cover goal must be satisfiable by itself
+	groupOK := map[string]bool{}
+	for _, v := range r.Verdicts {
+		if v.Obl.Cover && v.Obl.Group != "" && v.Status != "cover-fail" {
+			groupOK[v.Obl.Group] = true
+		}
+	}
 	for _, v := range r.Verdicts {
 		if v.Status == "cover-fail" {
+			if v.Obl.Group != "" && groupOK[v.Obl.Group] {
+				v.Status = "cover-dup"
+				continue
+			}
 			vacuousFunc[v.Func] = true
+		}
+	}
+	// an obligation that was discharged under assumed hints (callee preconditions, assert hints,
+	// earlier ensures, loop invariants) only counts when those were discharged themselves
+	byName := map[string]*Verdict{}
+	for _, v := range r.Verdicts {
+		byName[v.Obl.Name] = v
+	}
+	// in the quick tier a slow obligation (class t) is deferred to the thorough tier: what depends
+	// on it is not made conditional by its being undecided within the quick time limit
+	solid := func(v *Verdict) bool {
+		if v.Status == "discharged" && v.CondOn == "" {
+			return true
+		}
+		return r.Tier == "quick" && !r.UpdateLock && v.Status == "undecided" && lockClass(lock, fams, r.Tags, v.Obl.Name) == "t"
+	}
+	for changed := true; changed; {
+		changed = false
+		for _, v := range r.Verdicts {
+			if v.Status != "discharged" || v.CondOn != "" {
+				continue
+			}
+			for _, d := range v.Obl.Deps {
+				bad := ""
+				if strings.HasPrefix(d, "@loop:") {
+					key := strings.TrimPrefix(d, "@loop:") // "<func>#L<k>."
+					i := strings.Index(key, "#")
+					fn, l := key[:i], key[i+1:]
+					for _, w := range r.Verdicts {
+						if w.Func == fn && (strings.Contains(w.Obl.Name, "#inv-init["+l) || strings.Contains(w.Obl.Name, "#inv-pres["+l)) && !solid(w) && w != v {
+							bad = w.Obl.Name
+							break
+						}
+					}
+				} else if w, ok := byName[d]; ok && !solid(w) && w != v {
+					bad = w.Obl.Name
+				}
+				if bad != "" {
+					v.CondOn = bad
+					changed = true
+					break
+				}
+			}
 		}
 	}
 	for _, v := range r.Verdicts {
@@ -177,6 +277,10 @@ func (r *Report) Finish() int {
 		}
 		switch v.Status {
 		case "discharged":
+			if v.CondOn != "" {
+				ncond++
+				break
+			}
 			nd++
 			byBackend[v.Backend]++
 			if r.Verbose {
@@ -225,18 +329,23 @@ func (r *Report) Finish() int {
 		if v.Obl.Cover {
 			continue
 		}
-		cls := lock[lockKey(r.Tags, v.Obl.Name)]
-		claimed := cls == "q" || (cls == "t" && r.Tier == "thorough")
+		cls := lockClass(lock, fams, r.Tags, v.Obl.Name)
+		claimed := cls == "q" || (cls == "t" && r.Tier == "thorough") || cls == "c"
 		switch v.Status {
 		case "discharged":
-			if claimed || cls == "t" {
+			if (cls == "q" || cls == "t") && v.CondOn == "" {
 				claimedN++
 				claimedD++
+			} else if cls == "q" || cls == "t" {
+				// proved on the unchanged tree, now only conditionally: the hint it rests on fails and is reported itself
+				claimedN++
 			}
 		case "refuted":
 			switch {
-			case cls == "q" || cls == "t":
-				claimedN++
+			case cls == "q" || cls == "t" || cls == "c":
+				if cls != "c" {
+					claimedN++
+				}
 				fmt.Printf("  REFUTED   %-9s %5.2fs %s\n", v.Backend, v.TimeS, v.Obl.Name)
 				if rp, ok := r.tryReplay(v); ok {
 					violations++
@@ -259,7 +368,9 @@ func (r *Report) Finish() int {
 		default: // undecided
 			switch {
 			case claimed:
-				claimedN++
+				if cls != "c" {
+					claimedN++
+				}
 				fmt.Printf("  REGRESSED %5.2fs %s (discharged on the unchanged tree per obligations.lock)\n", v.TimeS, v.Obl.Name)
 				report(v, "undecided: this obligation is recorded as discharged in obligations.lock and no solver discharges it now (after a retry with thorough limits)", true)
 			case cls == "t":
@@ -276,6 +387,7 @@ func (r *Report) Finish() int {
 		// bootstrap (no lock yet): every discharged obligation counts, nothing alarms
 		claimedN, claimedD = nd, nd
 	}
+	// the retry at thorough limits in main.go covers class q; class c obligations get it too
 	// obligations in the lock that no longer exist (renamed away / contract lost)
 	missing := 0
 	if r.Prop != "" && len(lock) > 0 && !r.UpdateLock && r.FuncFilter == "" {
@@ -356,8 +468,8 @@ func (r *Report) Finish() int {
 	for _, l := range vioLines {
 		fmt.Println(l)
 	}
-	fmt.Printf("property=%s tier=%s functions=%d generated=%d discharged=%d refuted=%d undecided=%d | claimed=%d claimed-discharged=%d deferred-to-thorough=%d unclaimed=%d covers=%d gen=%.1fs wall=%.1fs\n",
-		r.Prop, r.Tier, len(r.Results), len(r.Verdicts)-ncov, nd, nr, nu, claimedN, claimedD, deferred, len(notClaimed), ncov, r.GenS, time.Since(r.T0).Seconds())
+	fmt.Printf("property=%s tier=%s functions=%d generated=%d discharged=%d conditional=%d refuted=%d undecided=%d | claimed=%d claimed-discharged=%d deferred-to-thorough=%d unclaimed=%d covers=%d gen=%.1fs wall=%.1fs\n",
+		r.Prop, r.Tier, len(r.Results), len(r.Verdicts)-ncov, nd, ncond, nr, nu, claimedN, claimedD, deferred, len(notClaimed), ncov, r.GenS, time.Since(r.T0).Seconds())
 
 	if r.UpdateLock && r.LockFile != "" {
 		r.updateLock(lock)
@@ -402,7 +514,7 @@ func (r *Report) Finish() int {
 			Coverage: map[string]any{
 				"obligations": claimedN, "discharged": claimedD,
 				"generated_obligations": len(r.Verdicts) - ncov, "generated_discharged": nd, "generated_refuted": nr, "generated_undecided": nu,
-				"unclaimed": notClaimed, "deferred_to_thorough": deferred,
+				"unclaimed": notClaimed, "deferred_to_thorough": deferred, "conditional_discharged": ncond,
 				"checker_cmd":              r.CheckerCmd,
 				"trusted_base":             tb,
 				"functions_under_contract": fl,
@@ -533,8 +645,11 @@ func (r *Report) updateLock(old map[string]string) {
 		cls := "u"
 		if v.Status == "discharged" {
 			cls = "t"
-			if v.TimeS <= 2.0 {
+			if v.TimeS <= 5.0 {
 				cls = "q"
+			}
+			if v.CondOn != "" {
+				cls = "c" // discharged only under an undischarged hint: not counted as proved, but a later failure is an alarm
 			}
 		}
 		keep[lockKey(r.Tags, v.Obl.Name)] = cls
